@@ -4,6 +4,7 @@ import (
 	"fmt"
 	"strings"
 
+	"github.com/iancoleman/strcase"
 	"github.com/pentops/j5/gen/j5/sourcedef/v1/sourcedef_j5pb"
 	"github.com/pentops/j5/internal/bcl/errpos"
 	"github.com/pentops/j5/internal/j5s/sourcewalk"
@@ -172,17 +173,36 @@ func oneofTypeRef(node *sourcewalk.OneofNode) *TypeRef {
 }
 
 func enumTypeRef(node *sourcewalk.EnumNode) *TypeRef {
+	// The names and numbers must be those visitEnumNode gives the values:
+	// the prefix defaults to the enum name, the first option takes number 0
+	// only if it is the explicit UNSPECIFIED value, the others count from 1.
+	prefix := node.Schema.Prefix
+	if prefix == "" {
+		prefix = strcase.ToScreamingSnake(node.Schema.Name) + "_"
+	}
 	valMap := make(map[string]int32)
-	for _, value := range node.Schema.Options {
-		valMap[node.Schema.Prefix+value.Name] = value.Number
+	options := node.Schema.Options
+	if len(options) > 0 && options[0].Number == 0 && strings.HasSuffix(options[0].Name, "UNSPECIFIED") {
+		valMap[enumValueName(prefix, options[0].Name)] = 0
+		options = options[1:]
+	}
+	for idx, value := range options {
+		valMap[enumValueName(prefix, value.Name)] = int32(idx + 1)
 	}
 	return &TypeRef{
 		Name:     node.NameInPackage(),
 		Position: node.Source.GetPos(),
 
 		EnumRef: &EnumRef{
-			Prefix: node.Schema.Prefix,
+			Prefix: prefix,
 			ValMap: valMap,
 		},
 	}
+}
+
+func enumValueName(prefix, name string) string {
+	if !strings.HasPrefix(name, prefix) {
+		return prefix + name
+	}
+	return name
 }
